@@ -519,6 +519,42 @@ theorem drop_refusals (t : RawTree) (l : Level) (allowLeaf : Bool) :
 example : exTree.dropLevel 2 = .error .isLeafLevel ∧ exTree.dropLevel 9 = .error .levelNotInTree ∧
     exTree.flatten.dropLevel 2 = .error .flatTree := by decide
 
+/-- *"serialising then re-reading preserve[s] the leaf set and each leaf's
+ancestor at every remaining level"*, for `to_str(drop_cells=True)` (plain
+`to_str` / `from_str` is the identity on the data; JSON itself is trusted): the
+tree without its cell lists is well formed, has the same hierarchy, the same
+nodes at every level (in the same order), the same dicts above the leaf level,
+empty row lists, and every query that does not read rows answers the same:
+`parents`, ancestors, `as_leaves`. -/
+theorem drop_cells_preserves (t : RawTree) (w : WF t) :
+    WF t.dropCells ∧
+    t.dropCells.hierarchy = t.hierarchy ∧
+    (∀ l, t.dropCells.nodesAt l = t.nodesAt l) ∧
+    (∀ l, t.leafLevel ≠ some l → t.dropCells.level l = t.level l) ∧
+    (∀ n, t.dropCells.entry (t.hierarchy.getLast w.hNe) n = []) ∧
+    (∀ l n, t.dropCells.parents l n = t.parents l n) ∧
+    (∀ l n al, t.dropCells.ancestorAt l n al = t.ancestorAt l n al) ∧
+    (∀ l n, t.dropCells.asLeaves l n = t.asLeaves l n) :=
+  ⟨dropCells_wf w, dropCells_hierarchy, fun l => dropCells_nodesAt w l,
+    fun _ hl => dropCells_level_other hl, fun n => dropCells_entry_leaf w n,
+    fun l n => dropCells_parents w l n, fun l n al => dropCells_ancestorAt w l n al,
+    fun l n => dropCells_asLeaves w l n⟩
+
+example : exTree.dropCells.level 2 = [(30, []), (31, []), (32, []), (33, [])] ∧
+    exTree.dropCells.level 1 = exTree.level 1 := by decide
+
+/-- composition: dropping any non-leaf level and then flattening gives exactly
+the flattened original (as data), and flattening twice is flattening once.
+(Chains of drops stay inside `WF` by `drop_preserves`, so every theorem here
+applies again to the result.) -/
+theorem flatten_after_drop (t : RawTree) (w : WF t) :
+    (∀ i (hi : i + 1 < t.hierarchy.length) (allowLeaf : Bool) (t' : RawTree),
+      t.dropLevel (t.hierarchy[i]'(by omega)) allowLeaf = .ok t' → t'.flatten = t.flatten) ∧
+    t.flatten.flatten = t.flatten :=
+  ⟨fun _ hi _ _ ht' => flatten_drop_eq w hi ht', flatten_flatten w⟩
+
+example : (exTree.dropLevel 1).map (·.flatten) = .ok exTree.flatten := by decide
+
 /-! ### building the tree from per-cell label columns -/
 
 /-- *"building it from per-cell label columns reproduces exactly the label
